@@ -358,11 +358,11 @@ def run_C08(ctx):
     for mode in STREAM_MODES + ["cfbbuf-enc", "cfbbuf-dec"]:
         fam = "buf" if mode.startswith("cfbbuf") else "stream"
         op = "data" if fam == "buf" else "apply"
-        for _ in range(ctx.n(4, 40)):
+        for _ in range(ctx.n(10, 60)):
             bs, w = small_matrix(rng, mode if fam == "stream" else "cbc-enc", 16)
             key = rb(rng, 16)
             iv = stream_iv(rng, mode, bs, key)[0] if fam == "stream" else rb(rng, bs)
-            nb = rng.choice([64, 128, 128, 256, 512]) * rng.choice([1, 1, 2]) + rng.choice([-1, 0, 0, 0, 1])
+            nb = rng.choice([64, 128, 128, 256, 512]) * rng.choice([1, 1, 2]) + rng.choice([-1, 0, 0, 0, 0, 1])
             head = rng.choice([0, 0, rng.randrange(0, bs)])
             tail = rng.choice([0, 0, rng.randrange(0, bs)])
             after = rng.randrange(1, 2 * bs + 2)
@@ -463,6 +463,19 @@ def run_C09(ctx):
             for k in cuts:
                 if k > L:
                     continue
+                g.append(Case("buf", mode, bs, w, key, iv, ops=[f"data {hx(data[:k])}", "restate", f"data {hx(data[k:])}"], role="cut"))
+            groups.append(g)
+            allc += g
+        # long streams: the uncut run is one call of many whole blocks (bulk paths, fixed-size batches), the cut runs resume
+        # a few bytes or many blocks into it
+        for _ in range(ctx.n(4, 40)):
+            bs, w = small_matrix(rng, "cbc-enc", 16)
+            key, iv = rb(rng, 16), rb(rng, bs)
+            nb = rng.choice([17, 33, 65, 66, 100, 129, 130, 200, 257])
+            L = nb * bs + rng.randrange(0, bs)
+            data = rb(rng, L)
+            g = [Case("buf", mode, bs, w, key, iv, ops=[f"data {hx(data)}"], role="whole", cls_long=str(nb))]
+            for k in sorted(set([rng.randrange(0, bs + 1), (nb // 2) * bs + rng.randrange(0, bs), L - rng.randrange(0, bs + 1)])):
                 g.append(Case("buf", mode, bs, w, key, iv, ops=[f"data {hx(data[:k])}", "restate", f"data {hx(data[k:])}"], role="cut"))
             groups.append(g)
             allc += g
